@@ -66,7 +66,7 @@ def hostile_texts(rng, tier):
                 if it.startswith(b'sec {') or it.startswith(b't '):
                     out.append(('annotated', it.replace(b'{ ', b'{ ' + cm, 1) + tail))
     # pathological shapes
-    big = 20000 if tier == 'quick' else 100000
+    big = 20000 if tier == 'quick' else 50000
     out += [('deep-known', b'sec { in x { ' * 3 + b'}' * 5),
             ('deep-unknown', b'u { ' * big), ('deep-unknown-closed', b'u { ' * (big // 10) + b'} ' * (big // 10)),
             ('deep-braces', b'{' * big), ('deep-list', b'il = {' + b'1,' * (big // 8) + b'}'),
